@@ -1,17 +1,18 @@
 #!/usr/bin/env python3
-"""Validate round-2 seeded changes written by sub-agents to /tmp/mut2/<ID>/out/{A,B,C}.diff (+ demo_X.py,
-notes.md) and keep the confirmed ones as seeded/<ID>-{C,D,E}/.
-usage: tools/ingest2.py [--all] ID..."""
+"""Validate seeded changes written by sub-agents to /tmp/mut<R>/<ID>/out/{A,B,C}.diff (+ demo_X.py, notes.md) and
+keep the confirmed ones as seeded/<ID>-{C,D,E}/ (round 2) or seeded/<ID>-{F,G,H}/ (round 3).
+usage: tools/ingest2.py [--round3] [--all] ID..."""
 import json
 import os
 import subprocess
 import sys
 
 VERIF = os.path.dirname(os.path.dirname(os.path.abspath(__file__)))
-MAP = {'A': 'C', 'B': 'D', 'C': 'E'}
 flags = [a for a in sys.argv[1:] if a.startswith('--')]
+ROUND = 3 if '--round3' in flags else 2
+MAP = {'A': 'F', 'B': 'G', 'C': 'H'} if ROUND == 3 else {'A': 'C', 'B': 'D', 'C': 'E'}
 for pid in [a for a in sys.argv[1:] if not a.startswith('--')]:
-    out = '/tmp/mut2/%s/out' % pid
+    out = '/tmp/mut%d/%s/out' % (ROUND, pid)
     try:
         notes = ' '.join(open(os.path.join(out, 'notes.md')).read().split())
     except OSError:
@@ -24,7 +25,7 @@ for pid in [a for a in sys.argv[1:] if not a.startswith('--')]:
         name = '%s-%s' % (pid, MAP[x])
         keep = os.path.join(VERIF, 'seeded', name)
         cmd = ['python3', os.path.join(VERIF, 'tools', 'seedtest.py'), diff, demo, pid, '--name', name, '--thorough',
-               '--keep', keep, '--needs', '[round 2, author\'s change %s] %s' % (x, notes[:2500])]
+               '--keep', keep, '--needs', '[round %d, author\'s change %s] %s' % (ROUND, x, notes[:8000])]
         if '--all' in flags:
             cmd.append('--all')
         p = subprocess.run(cmd, capture_output=True, text=True, cwd=VERIF)
